@@ -148,14 +148,25 @@ class SimStream(io.StringIO):
     """stdin/stdout/stderr replacement whose content survives close()."""
 
     def __init__(self, initial="", name="<simstream>", tty=False,
-                 fail_write=None):
+                 fail_write=None, encoding=None, errors="strict"):
         super().__init__(initial)
         self.name = name
         self._tty = tty
         self._final = None
         self.closed_by_sut = False
         self.fail_write = fail_write
-        self.encoding_ = "utf-8"
+        # the encoding of the stream (the one of the locale, for a standard
+        # stream): None = anything can be written
+        self.encoding_ = encoding
+        self.errors_ = errors
+
+    @property
+    def encoding(self):
+        return self.encoding_ or "utf-8"
+
+    @property
+    def errors(self):
+        return self.errors_
 
     def isatty(self):
         return self._tty
@@ -163,6 +174,10 @@ class SimStream(io.StringIO):
     def write(self, s):
         if self.fail_write is not None:
             raise self.fail_write
+        if self.encoding_ is not None:
+            # what cannot be encoded cannot be written (UnicodeEncodeError
+            # with errors='strict', as for the standard output)
+            s = s.encode(self.encoding_, self.errors_).decode(self.encoding_)
         return super().write(s)
 
     @property
